@@ -443,10 +443,16 @@ def run_case(case):
                             env[d] = np.zeros(3) if rng.random() < 0.7 else np.array([0.0, 1.0, 0.0])
                         else:
                             env[d] = rng.choice([0.0, 0.0, 1.0, 2.5, 0.3, 7.0], size=3)
+                    info = {}
                     try:
-                        exp = ref_eval(tree, env)
+                        exp = _feval(tree, env, strict=True, info=info)
                     except DontCare:
                         R.count("evaluations_outside_real_arithmetic")
+                        continue
+                    if info.get("fragile"):
+                        # within rounding distance of (but not at) a discontinuity of floor, //, % or a comparison: two correct
+                        # floating-point evaluations may differ by a whole jump
+                        R.count("evaluations_within_rounding_distance_of_a_discontinuity")
                         continue
                     (got, ev2) = audit(lambda: _call(fcn, env))
                     R.count("audit_hook_active_evaluations")
@@ -464,7 +470,8 @@ def run_case(case):
                         R.bad("value=real-arithmetic", "C19:shape-mismatch", {"string": s, "env": env})
                         continue
                     with np.errstate(all="ignore"):
-                        ok = np.isclose(g, e, rtol=1e-12, atol=1e-300, equal_nan=False) | ((g == e)) | (np.isnan(e))
+                        # absolute error of a floating-point evaluation is proportional to the largest intermediate value (cancellation)
+                        ok = np.isclose(g, e, rtol=1e-12, atol=max(1e-300, 1e-12 * info.get("scale", 0.0)), equal_nan=False) | ((g == e)) | (np.isnan(e))
                     if not np.all(ok):
                         regime = "zero-numerator" if ("/" in s or "sdiv" in s) and mode != "array" else mode
                         R.bad("value=real-arithmetic", "C19:value-differs[%s]" % mode, {"string": s, "env": env, "got": g.tolist(), "expected": e.tolist()})
